@@ -83,7 +83,69 @@ def gen_case(rng):
     return {"how": how, "url": url, "importer": importer, "load_paths": load_paths, "files": files}
 
 
+def gen_multi(rng):
+    """the same URL text imported from files in different directories of one compilation: every site must be
+    resolved relative to *its* importing file first"""
+    how = rng.choice(["@import", "@use"])
+    name = rng.choice(["leaf", "x.y", "colors"])
+    dirs = rng.sample(["d1", "d2", "d3"], rng.range(2, 3))
+    load_paths = rng.sample(["lp1", "lp2"], rng.range(0, 2))
+    files = {}
+    lines = []
+    for i, d in enumerate(dirs):
+        lines.append('%s "%s/mid"%s;' % (how, d, (" as m%d" % i) if how == "@use" else ""))
+        files["%s/_mid.scss" % d] = '%s "%s";\n.mid-%s { k: v; }\n' % (how, name, d)
+        if rng.chance(0.6):
+            f = "%s/%s" % (d, rng.choice(["_%s.scss", "%s.scss", "%s.sass", "_%s.sass"]) % name)
+            files[f] = marker(f)
+    for lp in load_paths:
+        if rng.chance(0.6):
+            f = "%s/%s" % (lp, rng.choice(["_%s.scss", "%s.scss"]) % name)
+            files[f] = marker(f)
+    files["main.scss"] = "\n".join(lines) + "\n"
+    return {"multi": True, "how": how, "url": name, "dirs": dirs, "importer": "main.scss", "load_paths": load_paths, "files": files}
+
+
+def judge_multi(sh, case, res):
+    sh.ev()
+    how, name, dirs, lps, files = case["how"], case["url"], case["dirs"], case["load_paths"], case["files"]
+    from ..core import h64
+    h = "%016x" % h64(str(sorted(files.items())) + str(lps))
+    rp = {"case": case}
+    facts = {"directive": "%s \"%s\" from %s" % (how, name, ["%s/_mid.scss" % d for d in dirs]), "load_paths": lps, "files": sorted(files)}
+    names = set(posixpath.normpath(f) for f in files)
+    want = []
+    missing = False
+    for d in dirs:
+        chosen, _, _ = M.resolve(name, "%s/_mid.scss" % d, lps, names, how == "@import")
+        if chosen is None:
+            missing = True
+            break
+        if how == "@use" and chosen in want:
+            continue          # a module is loaded (and its CSS emitted) once
+        want.append(chosen)
+    if missing:
+        if "err" not in res:
+            sh.violation("multi-should-fail:" + h, "one importing site has no candidate but the compilation succeeded: %s\n%s" % (facts["directive"], (res.get("ok") or "")[:300]), rp, facts)
+        else:
+            sh.count("agree_multi_not_found")
+            sh.nontrivial(h)
+        return
+    if "ok" not in res:
+        sh.violation("multi-should-resolve:" + h, "every site has a candidate (%s) but grass fails: %s" % (want, (res.get("err") or {}).get("msg")), rp, dict(facts, model=want))
+        return
+    import re
+    got = re.findall(r'f: "([^"]+)"', res["ok"])
+    if got != want:
+        sh.violation("multi-wrong-files:" + h, "%s: the documented search selects %s for the successive importing sites, the output carries %s" % (facts["directive"], want, got), rp, dict(facts, model=want, got=got))
+        return
+    sh.count("agree_multi_resolved")
+    sh.nontrivial(h)
+
+
 def judge(sh, case, res):
+    if case.get("multi"):
+        return judge_multi(sh, case, res)
     sh.ev()
     how, url, importer, lps, files = case["how"], case["url"], case["importer"], case["load_paths"], case["files"]
     from ..core import h64
@@ -174,7 +236,7 @@ def run(sh):
         w = sh.worker("R", cwd=d)
         n = 0
         while not sh.expired():
-            cases = [gen_case(rng) for _ in range(48)]
+            cases = [gen_multi(rng) if rng.chance(0.3) else gen_case(rng) for _ in range(48)]
             specs = [{"entry": c["importer"], "files": c["files"], "load_paths": c["load_paths"]} for c in cases]
             rs = w.batch(specs)
             for c, r in zip(cases, rs):
